@@ -1,12 +1,14 @@
 """C10 - A bad record is reported with its own record number and raw bytes."""
 import contextlib
 import io
+import tempfile
 
 from hypothesis import strategies as st
 
 from vlib import harness, gen_iso, codecs_, refcodec, refvbs, mutate
 from vlib.harness import where
 from vlib.strat import uniform
+from props import c09
 from cardutil import iso8583, mciipm
 from cardutil.cli import print_exception_details
 
@@ -210,7 +212,31 @@ def check(data, blocked, codec, config, default_cfg):
     kw = dict(encoding=codec, blocked=blocked)
     if not default_cfg:
         kw['iso_config'] = config
-    raw_reader = mciipm.IpmReader(io.BytesIO(data), **kw)
+    # the source: in memory, a read-only stream without seek/tell, a real file opened by name (`.name` is the path) or
+    # from a descriptor (`.name` is an integer)
+    how = (len(data) // 3) % 8
+    closer = None
+    if how == 5:
+        src = c09.Pipe(data)
+    elif how in (6, 7):
+        closer = src = tempfile.NamedTemporaryFile(prefix='cardutil-verif-c10-') if how == 6 else tempfile.TemporaryFile(prefix='cardutil-verif-c10-')
+        src.write(data)
+        src.flush()
+        src.seek(0)
+    else:
+        src = io.BytesIO(data)
+    try:
+        res = _check(data, blocked, codec, entries, tail, kw, src)
+    finally:
+        if closer is not None:
+            closer.close()
+    if res and how >= 5:
+        return res[0], res[1] + ' [source: %s]' % ('read-only stream', 'file opened by name', 'file opened from a descriptor')[how - 5]
+    return res
+
+
+def _check(data, blocked, codec, entries, tail, kw, src):
+    raw_reader = mciipm.IpmReader(src, **kw)
     form = '1014' if blocked else 'vbs'
     # consumption style: one iterator, or a fresh `iter(reader)` before every record (as in: skip a header with next(), then a
     # for loop; or a loop left with break and resumed) - the reader is its own iterator, so both must behave alike
